@@ -227,6 +227,7 @@ type qWorld struct {
 	readyAtExit  map[string]bool
 	lastRestartAt time.Time
 	burstOps []Op
+	burstAdmin map[string]int // status of the administrative calls of the current burst
 	lastStats *statsDoc
 }
 
@@ -1084,6 +1085,10 @@ func (w *qWorld) applyAdmin(what, topic, ch string, resp HTTPResp, burst bool) {
 	t := w.topic(topic)
 	ck := topic + "/" + ch
 	okResp := resp.Err == nil && resp.Status == 200
+	if w.burstAdmin == nil {
+		w.burstAdmin = map[string]int{}
+	}
+	w.burstAdmin[what+"|"+ck] = resp.Status
 	// expected status at quiescence (C10-style sanity, enforced for C08)
 	if !burst && resp.Err == nil {
 		exp := 200
